@@ -1,9 +1,9 @@
-\* repaired design (both switches TRUE): all safety properties, exhaustive
+\* design AS CODED for the revert loop comparing an unverified remote header: RevertsJustified must FAIL
 CONSTANTS
   InitLen = 3
-  MaxLen = 4
-  MaxSrcSteps = 2
-  MaxReorgs = 2
+  MaxLen = 3
+  MaxSrcSteps = 1
+  MaxReorgs = 1
   MaxNew = 1
   W = 2
   WV = 2
@@ -13,6 +13,7 @@ CONSTANTS
   FixH13 = TRUE
   FixRevertVerify = FALSE
   FixUnderflow = TRUE
+  Fine = FALSE
 INIT Init
 NEXT Next
 INVARIANTS TypeOK LocalIsSourceBlocks ReorgExact
